@@ -48,6 +48,7 @@ def _eval_one(d):
     try:
         with contextlib.redirect_stdout(buf):
             r = _SYSTEM.evaluate(d)
+        r.setdefault("key", dkey(d))
         r.setdefault("viol", [])
         r.setdefault("known", [])
         r.setdefault("tags", [])
